@@ -13,7 +13,7 @@ import ast
 from sa.model import AnalysisError, FuncInfo
 from sa.ctx import Ctx, short, stmt_key
 from sa.cfg import NORMAL, describe_path
-from sa.report import Report
+from sa.report import Report, section
 from sa.statemodel import StateModel, _has_inst
 from sa import pat
 
@@ -472,14 +472,14 @@ class C08:
 
 def run(ctx: Ctx, rep: Report, tier: str):
     c = C08(ctx, rep)
-    c.r1()
-    c.r2()
-    c.r3()
-    c.r4()
-    c.r5()
+    section(rep, c.r1)
+    section(rep, c.r2)
+    section(rep, c.r3)
+    section(rep, c.r4)
+    section(rep, c.r5)
     rep.rule("C08.R6", "on every normal path of a sync step (_sync_one_entry, both variants) and of an intake step "
              "(_process_event) storage_commit() is passed after the state-changing calls", expect_min=5)
-    c.r6()
+    section(rep, c.r6)
     # notes (not violations)
     ser = c._written_keys(c.entry.methods["serialize"])
     if "priority" in ser:
@@ -492,7 +492,7 @@ def run(ctx: Ctx, rep: Report, tier: str):
           keep=lambda i: "_process_event" in i.key)
     from rules.common import codec_keeps_tuples
     rep.rule("C08.R8", "the codec round-trips value TYPES too: deserialize calls msgpack.loads(..., use_list=False), so tuple hashes reload as tuples", 1)
-    codec_keeps_tuples(ctx, rep, "C08.R8")
+    section(rep, lambda: codec_keeps_tuples(ctx, rep, "C08.R8"))
     rep.rule("C08.R9", "forget() leaves nothing dirty behind: SyncState.forget resets the dirty set together with the indexes and the rows it deletes (C11.X10) - otherwise the "
              "next commit updates a deleted row and every later commit fails", 1)
     fg8 = ctx.prog.func("SyncState.forget")
